@@ -1323,6 +1323,19 @@ class ConstBCBase(BCBase):
             return NotImplemented
         return super().__eq__(other) and np.array_equal(self.value, other.value)
 
+    def _cache_hash(self) -> int:
+        """Return a hash identifying this condition as an argument of cached methods."""
+        from ...tools.cache import hash_mutable
+
+        cls = self.__class__
+        data = [cls.__module__, cls.__qualname__, hash_mutable(self.__dict__)]
+        if self.value_is_linked:
+            # Implementations based on this condition keep referring to the linked
+            # array, so they cannot be shared with conditions linked to another array,
+            # even if the two arrays currently contain identical values
+            data.append(id(self._value))
+        return hash(tuple(data))
+
     @property
     def value(self) -> NumericArray:
         return self._value
